@@ -28,11 +28,25 @@ class SymSeq:
         self.elem = elem          # (st, z3 Int) -> V
 
 
+def is_finite_const_iterable(o):
+    """re-iterable concrete python objects (containers, dict views, enum classes ...), not one-shot iterators"""
+    import enum as _enum
+    if isinstance(o, (tuple, list, frozenset, set, dict, str, range, bytes)):
+        return True
+    if isinstance(o, _enum.EnumMeta):
+        return True
+    if hasattr(o, "__next__"):
+        return False
+    if type(o).__name__ in ("dict_values", "dict_keys", "dict_items", "mappingproxy", "deque", "odict_values", "odict_keys"):
+        return True
+    return False
+
+
 def as_concrete_items(interp: Interp, st: St, x: V):
     """list[V] if the iterable has a statically known content, else None"""
     if x.kind == "tuple":
         return list(x.d)
-    if x.kind == "const" and x.shadow is None and isinstance(x.d, (tuple, list, frozenset, set, dict, str, range)):
+    if x.kind == "const" and x.shadow is None and is_finite_const_iterable(x.d):
         return [const(i) for i in x.d]
     if x.kind == "ref":
         h = st.heap[x.d]
@@ -49,6 +63,10 @@ def as_concrete_items(interp: Interp, st: St, x: V):
         inners = [as_concrete_items(interp, st, a) for a in x.tag[1]]
         if all(i is not None for i in inners):
             return [V("tuple", list(t)) for t in zip(*inners)]
+    if x.tag and x.tag[0] == "hdict_items":
+        h = st.heap[x.tag[1]]
+        if h.pairs is not None:
+            return [V("tuple", [k, vv]) for k, vv in h.pairs]
     if x.tag and x.tag[0] == "concrete_items":
         return list(x.tag[1])
     return None
@@ -201,11 +219,43 @@ def exec_for(interp: Interp, node: ast.For, st: St):
         if items is not None:
             yield from unroll(interp, node, s0, items)
             continue
+        if interp.prefer_shadow and x.shadow is not None and x.root is not None:
+            for s1, r1 in shadow_items(interp, s0, x):
+                if r1[0] != "ok":
+                    yield s1, r1
+                else:
+                    yield from unroll(interp, node, s1, r1[1])
+            continue
         for s1, r1 in as_sym_seq(interp, s0, x):
             if r1[0] != "ok":
                 yield s1, r1
                 continue
             yield from cut_for(interp, node, s1, r1[1])
+
+
+def shadow_items(interp, st, x: V):
+    """Iterate a shadowed iterable concretely: cells are partitioned by the number of elements it yields."""
+    def count(o):
+        try:
+            return len(list(o))
+        except TypeError:
+            return -1
+    for s, n in interp.partition(st, x, count):
+        if n < 0:
+            for s2, r in interp.shadow_apply(s, iter, [x], name="iter"):
+                yield s2, r
+            continue
+        items = []
+        for i in range(n):
+            cells = s.live[x.root]
+            sh = {c: (lambda c=c, i=i: list(x.shadow[c]())[i]) for c in cells}
+            vals = [sh[c]() for c in cells]
+            first = vals[0]
+            if type(first) in (bool, type(None), int, str) and all(type(v) is type(first) and v == first for v in vals):
+                items.append(const(first))
+            else:
+                items.append(V("sym", t=interp.ctx.fresh_val("item"), root=x.root, shadow=sh))
+        yield s, ("ok", items)
 
 
 def unroll(interp, node, st, items):
@@ -672,7 +722,19 @@ def eval_comprehension(interp: Interp, node, st: St, kind):
                 elif kind == "dict":
                     if sv[0] != "items":
                         raise Unsupported("dict comprehension over a symbolic sequence")
-                    yield s1, ("ok", interp.new_dict(s1, [tuple(p.d) for p in sv[1]]))
+                    bad = None
+                    for p in sv[1]:
+                        k = p.d[0]
+                        if k.kind == "const" and k.shadow is None:
+                            try:
+                                hash(k.d)
+                            except TypeError as e:
+                                bad = e
+                                break
+                    if bad is not None:
+                        yield s1, (RAISE, interp.exc_from_instance(s1, bad))
+                    else:
+                        yield s1, ("ok", interp.new_dict(s1, [tuple(p.d) for p in sv[1]]))
 
 
 def run_comprehension(interp, node, g, st, x: V, kind):
